@@ -116,7 +116,9 @@ def render_diff_case(ctx, A, B, tags, opt, label):
     except ExecTimeout:
         ctx.violation('%s|TIMEOUT|diff' % PROP, 'rendering did not terminate', case)
     except Exception as e:
-        ctx.violation(exc_fingerprint(PROP, e, 'EXC|diff'), 'rendering raised %s: %s (%s)' % (type(e).__name__, e, oname), case)
+        # the option class is part of the fingerprint: a failure under one renderer/colour setting must not hide one under another
+        ocls = '%s,color=%s,words=%s' % ({'git': 'git', 'diff3': 'diff', 'none': 'difflib'}[ts] if not rflags else ('diff' if rflags == ('--no-git',) else 'difflib'), color, words)
+        ctx.violation(exc_fingerprint(PROP, e, 'EXC|diff') + '|' + ocls, 'rendering raised %s: %s (%s)' % (type(e).__name__, e, oname), case)
     finally:
         isolate.restore_path()
 
